@@ -20,27 +20,34 @@ DRIVER = "dm_dfpart"
 LEAN_MODULES = ["DaskModel.Props.C41"]
 CASE_TIMEOUT_S = 90
 LEVEL_TEXT = ("Lean 4: the statement's predicate Truthful (npartitions = len(divisions)-1, divisions sorted, every key of "
-              "partition i in [d_i, d_i+1), last closed) and per-construction-path theorems over executable transliterations, "
-              "for all inputs: from_pandas_truthful (partitions cut at the locations planned by sorted_division_locations "
-              "are truthful for the planned divisions - every sorted frame, npartitions and chunksize mode; built on the C45 "
-              "theorems), partitions_truthful (selection of partitions in increasing order), tofewer_truthful (concatenation of "
-              "contiguous partitions: RepartitionToFewer), loc_slice_truthful (closed .loc[x:y], any number of touched partitions: "
-              "trimmed first/last, untouched middle, divisions (max(x,d_start),...,min(y,d_stop+1)); uses the proved spec of "
-              "_partition_of_index_value), filter_preserves, "
-              "blockwise_preserves, partitionwise_subset_preserves, truthfulB_decides (the executable oracle of the tie is "
-              "exactly the predicate). open-ended LocSlice, RepartitionDivisions, set_index and aligned merge/concat "
-              "paths are modelled/tied but not yet proved. VALIDATED on every run: random pipelines over from_pandas / from_map "
-              "sources, loc (slice, list, element), filter, assign, projection, repartition (npartitions, divisions), "
-              "partitions[...] selection, set_index (computed and given divisions), interleaved concat, index merges, "
-              "head/tail, map_partitions: the partitions the graph produces and the get_partition(i) view are checked "
-              "against .divisions by the Python oracle and by the Lean truthfulB. Two optimizer rewrites (filter or head/tail "
-              "after a set_index with computed divisions) violate the statement on the unchanged tree and are recorded as "
-              "known findings.")
-LEVEL_NOTE = ("Trusted: Lean kernel + standard axioms; the differential tie (LocSlice._divisions, Partitions._divisions "
-              "function level; pipelines API level); pandas label slicing on one partition; expression classes outside the "
-              "generated pipelines (evidence lists the paths reached) are not covered.")
-TECHNIQUE = "Lean 4 proof (closure of the Truthful predicate under each construction path) + differential correspondence + property oracle on the real code"
-ASSUMPTIONS = ["index values are non-negative ints in the model; compared only through <, <=, =="]
+              "partition i in [d_i, d_i+1), last closed) and one theorem per construction path over executable "
+              "transliterations, for all inputs: from_pandas_truthful (partitions cut at the locations planned by "
+              "sorted_division_locations - every sorted frame, npartitions and chunksize mode; built on the C45 theorems, which "
+              "now include totality), loc_slice_truthful_full (the FULL .loc statement: closed slices, .loc[x:], .loc[:y], .loc[:], "
+              "one or several touched partitions; window_truthful; uses the proved spec of _partition_of_index_value), "
+              "partitions_truthful (partitions[...] in increasing order), tofewer_truthful (RepartitionToFewer / concatenation of "
+              "contiguous partitions), repartition_divisions_truthful (repartition(divisions=b): both walks of "
+              "RepartitionDivisions._layer proved, see C44; for frames with partitions in index order), set_index_truthful "
+              "(set_partitions_pre + staged task shuffle + per-partition sort, divisions spanning the data; proved in C40, also "
+              "for the presorted shortcut), concat_monotonic_truthful (concat of frames with ordered, non-overlapping ranges: "
+              "divisions d1[:-1] + d2), aligned_binary_truthful (index merges / concat(axis=1) / arithmetic on co-aligned frames), "
+              "filter_preserves, blockwise_preserves, partitionwise_subset_preserves, truthfulB_decides (the executable oracle of "
+              "the tie is exactly the predicate). VALIDATED on every run: random pipelines over from_pandas / from_map sources, "
+              "loc (slice, list, element), filter, assign, projection, repartition (npartitions, divisions), partitions[...] "
+              "selection, set_index (computed / given divisions / npartitions=), interleaved concat, index merges, head/tail, "
+              "map_partitions: the partitions the graph produces and the get_partition(i) view are checked against .divisions by "
+              "the Python oracle and by the Lean truthfulB; Concat._divisions for ordered frames and LocSlice / Partitions "
+              "division rules at function level. NOT covered by a theorem: align_partitions' choice of the common divisions, "
+              "interleaved concat, LocList. Optimizer rewrites after a set_index with computed divisions (filter, head/tail) "
+              "violate the statement on the unchanged tree: known findings, classified by their exact symptom.")
+LEVEL_NOTE = ("Trusted: Lean kernel + standard axioms; the differential tie (LocSlice.start/stop/_divisions, Partitions._divisions, "
+              "Concat._divisions function level; pipelines API level); pandas label slicing on one partition; expression classes "
+              "outside the generated pipelines (evidence lists the paths reached) are not covered.")
+TECHNIQUE = "Lean 4 proof (closure of the Truthful predicate under each construction path; loop invariants for RepartitionDivisions) + differential correspondence + property oracle on the real code"
+ASSUMPTIONS = ["index values are non-negative ints in the model; compared only through <, <=, ==",
+               "the order of rows with EQUAL index values inside a partition after a shuffle is not promised (two graphs of the "
+               "same expression differ): oracles never depend on it"]
+TRUSTED = ["Lean 4 kernel, axioms propext / Classical.choice / Quot.sound", "harness/props/c41.py differential tie", "pandas as oracle"]
 
 
 def _mk_source(inp):
